@@ -18,15 +18,29 @@
          paths L and T (one interface) from the (sin, cos) layer of the interface model.
      (5'') qratio_any_path : the general theorem for ANY number of interior interfaces (every
          skip / double-skip path and mode word), from the per-interface relation (1).
-   `qratio_end_to_end_partial` (what is still not mechanised): reading the records of
-   qratio_any_path off `Model.Weights.transrefl_for_path` for the 14 concrete immersion paths
-   (which of the four relations (1) applies at which interface, and the passage from the
-   `_auto` angle layer to the (sin, cos) layer inside the products; done by hand for the
-   direct paths in (5')); the harness measures Q c_last^2 sigma / Q' = kappa on the real code
-   for every path, element and scatterer (2e-15). *)
+     (5p) (Proofs/ReciprocityPaths.v) the records of (5'') are BUILT from the interface model and
+         relation (1) is PROVED for them, for every block-in-immersion path = mode word m0 m1 ... mk
+         (front-wall transmission into m0, then k reflections against the couplant):
+         displacement_record_front / _refl (all six interface events), qratio_skip_path_LL / LT /
+         TL / TT (one reflection, explicit), qratio_immersion_path (any k; sigma = +1 / -1 as the
+         last leg is L / T) on the (sin, cos) layer; then on the ANGLE layer, for real sub-critical
+         conventional incidence angles: model_transrefl_products (the factors of
+         Model.Weights.transrefl_for_path / reverse_transrefl_for_path ARE the F / G of the records:
+         the Snell angles the reverse function recomputes lead to the forward wall),
+         model_gammas (Model.Beamspread's gamma_list / rev_gamma_list are the records' gammas /
+         their inverses reversed), qratio_model_path (the identity for the model's own four
+         functions, real dtype) and qratio_model_path_complex (default complex dtype, the model's
+         tx_weight / rx_weight with directivity and attenuation each on or off).
+   What is still not mechanised (`qratio_beyond_critical_partial`): rays with a wave beyond a
+   critical angle at some wall (complex angles: relation (1) is proved in any field, but the
+   beamspread / sqrt algebra of (3)-(5) is over the reals), and that the conventional incidence
+   angles of arim's traced rays are the arguments fed to the model (C05/C07 tie).  The harness
+   measures Q c_last^2 sigma / Q' = kappa on the real code for every path, element and scatterer
+   (2e-15). *)
 From Coq Require Import List ZArith Bool Reals Lra.
 From Arim Require Import Base.Num Base.NumR Model.Interface Model.Beamspread Model.Weights
-                         Proofs.InterfaceProofs Proofs.BeamspreadProofs Proofs.ReciprocityProofs.
+                         Proofs.InterfaceProofs Proofs.BeamspreadProofs Proofs.ReciprocityProofs
+                         Proofs.ReciprocityPaths.
 Import ListNotations.
 Local Open Scope R_scope.
 
@@ -191,6 +205,255 @@ Theorem qratio_any_path : forall x l r1 rs D A f,
   = (frin x * fvin x * sqrt (fvin x * f) / rholast) * Q'.
 Proof. exact qratio_general. Qed.
 
+(* (5p) THE RECORDS BUILT FROM THE INTERFACE MODEL (Proofs/ReciprocityPaths.v).
+   A `wall` holds (sin, cos) of the fluid, L and T angles at one wall (the arguments of the _sc
+   layer of Model/Interface.v); `wall_ok` = positive cosines (every wave sub-critical), Snell
+   between the L and T angles (sl v_t = st v_l) and N <> 0 (implied by non-negative sines:
+   wall_ok_from_signs).  `front_ifr m a` / `refl_ifr m1 m2 a` are the records of (5''): F and G
+   are the displacement-unit factors of transmission_reflection_for_path and
+   reverse_transmission_reflection_for_path (spelled out in interface_records). *)
+Theorem interface_records : forall rho_f rho_s v_f v_l v_t (a : wall),
+  let FS := fluid_solid_sc NumR (wsf a) (wcf a) (wsl a) (wcl a) (wst a) (wct a) rho_f rho_s v_f v_l v_t in
+  let LF := solid_l_fluid_sc NumR (wsf a) (wcf a) (wsl a) (wcl a) (wst a) (wct a) rho_f rho_s v_f v_l v_t in
+  let TF := solid_t_fluid_sc NumR (wsf a) (wcf a) (wsl a) (wcl a) (wst a) (wct a) rho_f rho_s v_f v_l v_t in
+  front_ifr rho_f rho_s v_f v_l v_t ModeL a
+    = mkIfr (snd3 FS * ((rho_f * v_f) / (rho_s * v_l))) (thd3 LF * ((rho_s * v_l) / (rho_f * v_f)))
+            (wcf a) (wcl a) v_f v_l rho_f rho_s false /\
+  front_ifr rho_f rho_s v_f v_l v_t ModeT a
+    = mkIfr (thd3 FS * ((rho_f * v_f) / (rho_s * v_t))) (thd3 TF * ((rho_s * v_t) / (rho_f * v_f)))
+            (wcf a) (wct a) v_f v_t rho_f rho_s true /\
+  refl_ifr rho_f rho_s v_f v_l v_t ModeL ModeL a
+    = mkIfr (fst3 LF * (v_l / v_l)) (fst3 LF * (v_l / v_l)) (wcl a) (wcl a) v_l v_l rho_s rho_s false /\
+  refl_ifr rho_f rho_s v_f v_l v_t ModeL ModeT a
+    = mkIfr (snd3 LF * (v_l / v_t)) (fst3 TF * (v_t / v_l)) (wcl a) (wct a) v_l v_t rho_s rho_s true /\
+  refl_ifr rho_f rho_s v_f v_l v_t ModeT ModeL a
+    = mkIfr (fst3 TF * (v_t / v_l)) (snd3 LF * (v_l / v_t)) (wct a) (wcl a) v_t v_l rho_s rho_s true /\
+  refl_ifr rho_f rho_s v_f v_l v_t ModeT ModeT a
+    = mkIfr (snd3 TF * (v_t / v_t)) (snd3 TF * (v_t / v_t)) (wct a) (wct a) v_t v_t rho_s rho_s false.
+Proof. exact records_unfold. Qed.
+
+Theorem wall_ok_from_signs : forall rho_f rho_s v_f v_l v_t,
+  0 < rho_f -> 0 < rho_s -> 0 < v_f -> 0 < v_l -> 0 < v_t ->
+  forall a : wall, 0 < wcf a -> 0 < wcl a -> 0 < wct a -> 0 <= wsl a -> 0 <= wst a ->
+  wsl a * v_t = wst a * v_l -> wall_ok rho_f rho_s v_f v_l v_t a.
+Proof. exact wall_ok_of_signs. Qed.
+
+(* relation (1) and positivity for the record of the front-wall transmission into m = L or T *)
+Theorem displacement_record_front : forall rho_f rho_s v_f v_l v_t,
+  0 < rho_f -> 0 < rho_s -> 0 < v_f -> 0 < v_l -> 0 < v_t ->
+  forall (m : wmode) (a : wall), wall_ok rho_f rho_s v_f v_l v_t a ->
+  ifr_ratio_ok (front_ifr rho_f rho_s v_f v_l v_t m a) /\ ifr_pos (front_ifr rho_f rho_s v_f v_l v_t m a).
+Proof. intros; split; [apply front_ratio_ok | apply front_pos]; assumption. Qed.
+
+(* ... and for the record of a reflection m1 -> m2 (LL, LT, TL, TT) against the couplant *)
+Theorem displacement_record_refl : forall rho_f rho_s v_f v_l v_t,
+  0 < rho_s -> 0 < v_l -> 0 < v_t ->
+  forall (m1 m2 : wmode) (a : wall), wall_ok rho_f rho_s v_f v_l v_t a ->
+  ifr_ratio_ok (refl_ifr rho_f rho_s v_f v_l v_t m1 m2 a) /\ ifr_pos (refl_ifr rho_f rho_s v_f v_l v_t m1 m2 a).
+Proof. intros; split; [apply refl_ratio_ok | apply refl_pos]; assumption. Qed.
+
+(* the four skip paths (front wall angles ..0, reflecting wall angles ..1; legs r1 couplant,
+   r2, r3 block), end to end from the (sin, cos) layer, in the style of (5') *)
+Theorem qratio_skip_path_LL :
+  forall rho_f rho_s v_f v_l v_t, 0 < rho_f -> 0 < rho_s -> 0 < v_f -> 0 < v_l -> 0 < v_t ->
+  forall sf0 cf0 sl0 cl0 st0 ct0 sf1 cf1 sl1 cl1 st1 ct1,
+  0 < cf0 -> 0 < cl0 -> 0 < ct0 -> sl0 * v_t = st0 * v_l ->
+  fluid_solid_n_sc NumR sf0 cf0 sl0 cl0 st0 ct0 rho_f rho_s v_f v_l v_t <> 0 ->
+  0 < cf1 -> 0 < cl1 -> 0 < ct1 -> sl1 * v_t = st1 * v_l ->
+  fluid_solid_n_sc NumR sf1 cf1 sl1 cl1 st1 ct1 rho_f rho_s v_f v_l v_t <> 0 ->
+  forall r1 r2 r3 D A f, 0 < r1 -> 0 < r2 -> 0 < r3 -> 0 < f ->
+  let FS0 := fluid_solid_sc NumR sf0 cf0 sl0 cl0 st0 ct0 rho_f rho_s v_f v_l v_t in
+  let LF0 := solid_l_fluid_sc NumR sf0 cf0 sl0 cl0 st0 ct0 rho_f rho_s v_f v_l v_t in
+  let TF0 := solid_t_fluid_sc NumR sf0 cf0 sl0 cl0 st0 ct0 rho_f rho_s v_f v_l v_t in
+  let LF1 := solid_l_fluid_sc NumR sf1 cf1 sl1 cl1 st1 ct1 rho_f rho_s v_f v_l v_t in
+  let TF1 := solid_t_fluid_sc NumR sf1 cf1 sl1 cl1 st1 ct1 rho_f rho_s v_f v_l v_t in
+  let g1 := v_f * (cl0 * cl0) / (v_l * (cf0 * cf0)) in
+  let g2 := v_l * (cl1 * cl1) / (v_l * (cl1 * cl1)) in
+  let Q  := D * ((snd3 FS0 * ((rho_f * v_f) / (rho_s * v_l))) * (fst3 LF1 * (v_l / v_l)))
+            * (1 / sqrt (r1 + r2 / g1 + r3 / (g1 * g2))) * A in
+  let Q' := D * ((thd3 LF0 * ((rho_s * v_l) / (rho_f * v_f))) * (fst3 LF1 * (v_l / v_l)))
+            * (1 / sqrt (r3 + r2 / (/ g2) + r1 / (/ g2 * / g1))) * A * sqrt (v_l / f) in
+  Q * (v_l * v_l) * 1 = (rho_f * v_f * sqrt (v_f * f) / rho_s) * Q'.
+Proof. intros; apply qratio_skip_LL; assumption. Qed.
+
+Theorem qratio_skip_path_LT :
+  forall rho_f rho_s v_f v_l v_t, 0 < rho_f -> 0 < rho_s -> 0 < v_f -> 0 < v_l -> 0 < v_t ->
+  forall sf0 cf0 sl0 cl0 st0 ct0 sf1 cf1 sl1 cl1 st1 ct1,
+  0 < cf0 -> 0 < cl0 -> 0 < ct0 -> sl0 * v_t = st0 * v_l ->
+  fluid_solid_n_sc NumR sf0 cf0 sl0 cl0 st0 ct0 rho_f rho_s v_f v_l v_t <> 0 ->
+  0 < cf1 -> 0 < cl1 -> 0 < ct1 -> sl1 * v_t = st1 * v_l ->
+  fluid_solid_n_sc NumR sf1 cf1 sl1 cl1 st1 ct1 rho_f rho_s v_f v_l v_t <> 0 ->
+  forall r1 r2 r3 D A f, 0 < r1 -> 0 < r2 -> 0 < r3 -> 0 < f ->
+  let FS0 := fluid_solid_sc NumR sf0 cf0 sl0 cl0 st0 ct0 rho_f rho_s v_f v_l v_t in
+  let LF0 := solid_l_fluid_sc NumR sf0 cf0 sl0 cl0 st0 ct0 rho_f rho_s v_f v_l v_t in
+  let TF0 := solid_t_fluid_sc NumR sf0 cf0 sl0 cl0 st0 ct0 rho_f rho_s v_f v_l v_t in
+  let LF1 := solid_l_fluid_sc NumR sf1 cf1 sl1 cl1 st1 ct1 rho_f rho_s v_f v_l v_t in
+  let TF1 := solid_t_fluid_sc NumR sf1 cf1 sl1 cl1 st1 ct1 rho_f rho_s v_f v_l v_t in
+  let g1 := v_f * (cl0 * cl0) / (v_l * (cf0 * cf0)) in
+  let g2 := v_l * (ct1 * ct1) / (v_t * (cl1 * cl1)) in
+  let Q  := D * ((snd3 FS0 * ((rho_f * v_f) / (rho_s * v_l))) * (snd3 LF1 * (v_l / v_t)))
+            * (1 / sqrt (r1 + r2 / g1 + r3 / (g1 * g2))) * A in
+  let Q' := D * ((thd3 LF0 * ((rho_s * v_l) / (rho_f * v_f))) * (fst3 TF1 * (v_t / v_l)))
+            * (1 / sqrt (r3 + r2 / (/ g2) + r1 / (/ g2 * / g1))) * A * sqrt (v_t / f) in
+  Q * (v_t * v_t) * (-1) = (rho_f * v_f * sqrt (v_f * f) / rho_s) * Q'.
+Proof. intros; apply qratio_skip_LT; assumption. Qed.
+
+Theorem qratio_skip_path_TL :
+  forall rho_f rho_s v_f v_l v_t, 0 < rho_f -> 0 < rho_s -> 0 < v_f -> 0 < v_l -> 0 < v_t ->
+  forall sf0 cf0 sl0 cl0 st0 ct0 sf1 cf1 sl1 cl1 st1 ct1,
+  0 < cf0 -> 0 < cl0 -> 0 < ct0 -> sl0 * v_t = st0 * v_l ->
+  fluid_solid_n_sc NumR sf0 cf0 sl0 cl0 st0 ct0 rho_f rho_s v_f v_l v_t <> 0 ->
+  0 < cf1 -> 0 < cl1 -> 0 < ct1 -> sl1 * v_t = st1 * v_l ->
+  fluid_solid_n_sc NumR sf1 cf1 sl1 cl1 st1 ct1 rho_f rho_s v_f v_l v_t <> 0 ->
+  forall r1 r2 r3 D A f, 0 < r1 -> 0 < r2 -> 0 < r3 -> 0 < f ->
+  let FS0 := fluid_solid_sc NumR sf0 cf0 sl0 cl0 st0 ct0 rho_f rho_s v_f v_l v_t in
+  let LF0 := solid_l_fluid_sc NumR sf0 cf0 sl0 cl0 st0 ct0 rho_f rho_s v_f v_l v_t in
+  let TF0 := solid_t_fluid_sc NumR sf0 cf0 sl0 cl0 st0 ct0 rho_f rho_s v_f v_l v_t in
+  let LF1 := solid_l_fluid_sc NumR sf1 cf1 sl1 cl1 st1 ct1 rho_f rho_s v_f v_l v_t in
+  let TF1 := solid_t_fluid_sc NumR sf1 cf1 sl1 cl1 st1 ct1 rho_f rho_s v_f v_l v_t in
+  let g1 := v_f * (ct0 * ct0) / (v_t * (cf0 * cf0)) in
+  let g2 := v_t * (cl1 * cl1) / (v_l * (ct1 * ct1)) in
+  let Q  := D * ((thd3 FS0 * ((rho_f * v_f) / (rho_s * v_t))) * (fst3 TF1 * (v_t / v_l)))
+            * (1 / sqrt (r1 + r2 / g1 + r3 / (g1 * g2))) * A in
+  let Q' := D * ((thd3 TF0 * ((rho_s * v_t) / (rho_f * v_f))) * (snd3 LF1 * (v_l / v_t)))
+            * (1 / sqrt (r3 + r2 / (/ g2) + r1 / (/ g2 * / g1))) * A * sqrt (v_l / f) in
+  Q * (v_l * v_l) * 1 = (rho_f * v_f * sqrt (v_f * f) / rho_s) * Q'.
+Proof. intros; apply qratio_skip_TL; assumption. Qed.
+
+Theorem qratio_skip_path_TT :
+  forall rho_f rho_s v_f v_l v_t, 0 < rho_f -> 0 < rho_s -> 0 < v_f -> 0 < v_l -> 0 < v_t ->
+  forall sf0 cf0 sl0 cl0 st0 ct0 sf1 cf1 sl1 cl1 st1 ct1,
+  0 < cf0 -> 0 < cl0 -> 0 < ct0 -> sl0 * v_t = st0 * v_l ->
+  fluid_solid_n_sc NumR sf0 cf0 sl0 cl0 st0 ct0 rho_f rho_s v_f v_l v_t <> 0 ->
+  0 < cf1 -> 0 < cl1 -> 0 < ct1 -> sl1 * v_t = st1 * v_l ->
+  fluid_solid_n_sc NumR sf1 cf1 sl1 cl1 st1 ct1 rho_f rho_s v_f v_l v_t <> 0 ->
+  forall r1 r2 r3 D A f, 0 < r1 -> 0 < r2 -> 0 < r3 -> 0 < f ->
+  let FS0 := fluid_solid_sc NumR sf0 cf0 sl0 cl0 st0 ct0 rho_f rho_s v_f v_l v_t in
+  let LF0 := solid_l_fluid_sc NumR sf0 cf0 sl0 cl0 st0 ct0 rho_f rho_s v_f v_l v_t in
+  let TF0 := solid_t_fluid_sc NumR sf0 cf0 sl0 cl0 st0 ct0 rho_f rho_s v_f v_l v_t in
+  let LF1 := solid_l_fluid_sc NumR sf1 cf1 sl1 cl1 st1 ct1 rho_f rho_s v_f v_l v_t in
+  let TF1 := solid_t_fluid_sc NumR sf1 cf1 sl1 cl1 st1 ct1 rho_f rho_s v_f v_l v_t in
+  let g1 := v_f * (ct0 * ct0) / (v_t * (cf0 * cf0)) in
+  let g2 := v_t * (ct1 * ct1) / (v_t * (ct1 * ct1)) in
+  let Q  := D * ((thd3 FS0 * ((rho_f * v_f) / (rho_s * v_t))) * (snd3 TF1 * (v_t / v_t)))
+            * (1 / sqrt (r1 + r2 / g1 + r3 / (g1 * g2))) * A in
+  let Q' := D * ((thd3 TF0 * ((rho_s * v_t) / (rho_f * v_f))) * (snd3 TF1 * (v_t / v_t)))
+            * (1 / sqrt (r3 + r2 / (/ g2) + r1 / (/ g2 * / g1))) * A * sqrt (v_t / f) in
+  Q * (v_t * v_t) * (-1) = (rho_f * v_f * sqrt (v_f * f) / rho_s) * Q'.
+Proof. intros; apply qratio_skip_TT; assumption. Qed.
+
+(* every immersion path: m0 = mode of the first leg in the block, a0 = front wall,
+   l = [(m1, a1); ...; (mk, ak)] = outgoing mode and wall of each reflection (the incident mode of
+   a reflection is the outgoing mode of the previous interface: the mode word m0 m1 ... mk of arim's
+   path names); path_ifrs m0 a0 l = front_ifr m0 a0 :: refl_ifr m0 m1 a1 :: refl_ifr m1 m2 a2 :: ...
+   This is qratio_any_path with its hypotheses ifr_pos / ifr_chained / ifr_ratio_ok DISCHARGED and
+   sigma computed: +1 if the last leg is L, -1 if it is T. *)
+Theorem qratio_immersion_path : forall rho_f rho_s v_f v_l v_t,
+  0 < rho_f -> 0 < rho_s -> 0 < v_f -> 0 < v_l -> 0 < v_t ->
+  forall (m0 : wmode) (a0 : wall) (l : list (wmode * wall)) r1 rs D A f,
+  Forall (wall_ok rho_f rho_s v_f v_l v_t) (a0 :: map snd l) ->
+  length rs = S (length l) -> 0 < r1 -> all_pos rs -> 0 < f ->
+  let L := path_ifrs rho_f rho_s v_f v_l v_t m0 a0 l in
+  let gs := map ifr_gamma L in
+  let c := vel_of v_l v_t (last_mode m0 l) in
+  let vd := virtual_distance NumR (r1 :: rs) gs in
+  let vd' := virtual_distance NumR (rev (r1 :: rs)) (map Rinv (rev gs)) in
+  let Q := D * rprod fF L * (1 / sqrt vd) * A in
+  let Q' := D * rprod fG L * (1 / sqrt vd') * A * sqrt (c / f) in
+  Q * (c * c) * mode_sign (last_mode m0 l) = (rho_f * v_f * sqrt (v_f * f) / rho_s) * Q'.
+Proof. exact qratio_immersion. Qed.
+
+(* ---- the ANGLE layer: what the model computes from the conventional incidence angles ----
+   path_ifaces ... m0 th0 [(m1, th1); ...] = the interior interfaces as Model.Weights reads them:
+     mkIface FluidSolid true  fluid solid fluid ModeL m0 th0            (front wall, transmission)
+     mkIface SolidFluid false solid solid fluid m_{k-1} m_k th_k        (reflection against the couplant)
+   path_vels = [v_f; v(m0); v(m1); ...], path_thetas = [th0; th1; ...]  (spelled out in
+   path_objects); subcritical v_in th = 0 <= th < pi/2 and the Snell sines of the fluid, L and T
+   waves are < 1; model_ifrs = the records of qratio_immersion_path at the walls
+   (sin, cos)(th, snell_angles th ..). *)
+Theorem path_objects : forall rho_f rho_s v_f v_l v_t vtf m0 th0 m1 th1 l,
+  let fluid := mkMaterial rho_f v_f vtf in
+  let solid := mkMaterial rho_s v_l v_t in
+  path_ifaces rho_f rho_s v_f v_l v_t vtf m0 th0 []
+    = [mkIface FluidSolid true fluid solid fluid ModeL m0 th0] /\
+  path_ifaces rho_f rho_s v_f v_l v_t vtf m0 th0 ((m1, th1) :: l)
+    = mkIface FluidSolid true fluid solid fluid ModeL m0 th0
+      :: mkIface SolidFluid false solid solid fluid m0 m1 th1
+      :: tl (path_ifaces rho_f rho_s v_f v_l v_t vtf m1 th1 l) /\
+  path_vels v_f v_l v_t m0 ((m1, th1) :: l) = v_f :: vel_of v_l v_t m0 :: tl (path_vels v_f v_l v_t m1 l) /\
+  path_thetas th0 ((m1, th1) :: l) = th0 :: path_thetas th1 l /\
+  (subcritical v_f v_l v_t v_f th0 <->
+     0 <= th0 < PI / 2 /\ v_f / v_f * sin th0 < 1 /\ v_l / v_f * sin th0 < 1 /\ v_t / v_f * sin th0 < 1) /\
+  (refl_sub v_f v_l v_t m0 ((m1, th1) :: l) <->
+     (0 <= th1 < PI / 2 /\ v_f / vel_of v_l v_t m0 * sin th1 < 1 /\ v_l / vel_of v_l v_t m0 * sin th1 < 1
+      /\ v_t / vel_of v_l v_t m0 * sin th1 < 1) /\ refl_sub v_f v_l v_t m1 l).
+Proof. exact path_objects_unfold. Qed.
+
+(* the two products of the model are the products of the records' F and G: no factor raises, and
+   the angle reverse_transmission_reflection_for_path recomputes by snell_angles at each interface
+   gives back the forward wall (this is the passage angle layer -> (sin, cos) layer) *)
+Theorem model_transrefl_products : forall rho_f rho_s v_f v_l v_t, 0 < v_f -> 0 < v_l -> 0 < v_t ->
+  forall vtf (m0 : wmode) th0 (l : list (wmode * R)),
+  subcritical v_f v_l v_t v_f th0 -> refl_sub v_f v_l v_t m0 l ->
+  transrefl_for_path NumR Displacement (path_ifaces rho_f rho_s v_f v_l v_t vtf m0 th0 l)
+    = Some (Some (rprod fF (model_ifrs rho_f rho_s v_f v_l v_t m0 th0 l))) /\
+  reverse_transrefl_for_path NumR Displacement (path_ifaces rho_f rho_s v_f v_l v_t vtf m0 th0 l)
+    = Some (Some (rprod fG (model_ifrs rho_f rho_s v_f v_l v_t m0 th0 l))).
+Proof. intros; split; [apply transrefl_is_product | apply reverse_transrefl_is_product; assumption]. Qed.
+
+(* the gammas of beamspread_2d_for_path are the records' gammas (Snell), those of
+   reverse_beamspread_2d_for_path their inverses in reverse order *)
+Theorem model_gammas : forall rho_f rho_s v_f v_l v_t, 0 < v_f -> 0 < v_l -> 0 < v_t ->
+  forall (m0 : wmode) th0 (l : list (wmode * R)),
+  subcritical v_f v_l v_t v_f th0 -> refl_sub v_f v_l v_t m0 l ->
+  gamma_list NumR (path_vels v_f v_l v_t m0 l) (path_thetas th0 l)
+    = map ifr_gamma (model_ifrs rho_f rho_s v_f v_l v_t m0 th0 l) /\
+  rev_gamma_list NumR (rev (path_vels v_f v_l v_t m0 l)) (rev (path_thetas th0 l))
+    = map Rinv (rev (map ifr_gamma (model_ifrs rho_f rho_s v_f v_l v_t m0 th0 l))).
+Proof. intros; split; [apply gamma_list_is_records | apply rev_gamma_list_is_records]; assumption. Qed.
+
+(* THE END-TO-END THEOREM on the model's own functions (real dtype): every immersion path (any
+   mode word, any number of reflections), real sub-critical incidence angles, any leg lengths,
+   directivity D, attenuation A, frequency f.  Remaining hypotheses: positivity of the material
+   constants and legs, sub-criticality of every wave at every wall. *)
+Theorem qratio_model_path : forall rho_f rho_s v_f v_l v_t,
+  0 < rho_f -> 0 < rho_s -> 0 < v_f -> 0 < v_l -> 0 < v_t ->
+  forall vtf (m0 : wmode) th0 (l : list (wmode * R)) r1 rs D A f,
+  subcritical v_f v_l v_t v_f th0 -> refl_sub v_f v_l v_t m0 l ->
+  length rs = S (length l) -> 0 < r1 -> all_pos rs -> 0 < f ->
+  let ifs := path_ifaces rho_f rho_s v_f v_l v_t vtf m0 th0 l in
+  let vel := path_vels v_f v_l v_t m0 l in
+  let ths := path_thetas th0 l in
+  let c := vel_of v_l v_t (last_mode m0 l) in
+  exists TR TR' : R,
+    transrefl_for_path NumR Displacement ifs = Some (Some TR) /\
+    reverse_transrefl_for_path NumR Displacement ifs = Some (Some TR') /\
+    (D * TR * beamspread NumR vel (r1 :: rs) ths * A) * (c * c) * mode_sign (last_mode m0 l)
+    = (rho_f * v_f * sqrt (v_f * f) / rho_s)
+      * (D * TR' * reverse_beamspread NumR vel (r1 :: rs) ths * A * sqrt (c / f)).
+Proof. exact qratio_model. Qed.
+
+(* ... and on the default dtype (force_complex=True: complex numbers as pairs; iface_C embeds the
+   real materials and angles with imaginary part 0), for the model's tx_weight / rx_weight with
+   transrefl and beamspread on and directivity / attenuation each on or off: the two weights are
+   real and satisfy the identity *)
+Theorem qratio_model_path_complex : forall rho_f rho_s v_f v_l v_t,
+  0 < rho_f -> 0 < rho_s -> 0 < v_f -> 0 < v_l -> 0 < v_t ->
+  forall vtf (m0 : wmode) th0 (l : list (wmode * R)) r1 rs dirv att f (use_dir use_att : bool),
+  subcritical v_f v_l v_t v_f th0 -> refl_sub v_f v_l v_t m0 l ->
+  length rs = S (length l) -> 0 < r1 -> all_pos rs -> 0 < f ->
+  let ifs := map iface_C (path_ifaces rho_f rho_s v_f v_l v_t vtf m0 th0 l) in
+  let vel := path_vels v_f v_l v_t m0 l in
+  let ths := path_thetas th0 l in
+  let c := vel_of v_l v_t (last_mode m0 l) in
+  exists (TR TR' : R * R) (Q Q' : R),
+    transrefl_for_path (NumC NumR) Displacement ifs = Some (Some TR) /\
+    reverse_transrefl_for_path (NumC NumR) Displacement ifs = Some (Some TR') /\
+    tx_weight NumR use_dir true true use_att dirv TR (beamspread NumR vel (r1 :: rs) ths) att = (Q, 0) /\
+    rx_weight NumR use_dir true true use_att dirv TR' (reverse_beamspread NumR vel (r1 :: rs) ths) att (c / f) = (Q', 0) /\
+    Q * (c * c) * mode_sign (last_mode m0 l) = (rho_f * v_f * sqrt (v_f * f) / rho_s) * Q'.
+Proof. exact qratio_model_complex. Qed.
+
 (* (6) *)
 Theorem view_reciprocity : forall kappa cx cy sx sy QiX Q'iX QjY Q'jY Sxy Syx,
   cx <> 0 -> cy <> 0 -> sx * sx = 1 -> sy * sy = 1 ->
@@ -216,3 +479,10 @@ Qed.
 Example qratio_premises_satisfiable :
   exists TRp TRr Pg : R, Pg = (1480 / 5900) * (1 * 1) /\ TRp * 1 * (7800 * 5900) = 1 * TRr * (1000 * 1480) /\ TRp <> 0.
 Proof. exists 1, (7800 * 5900 / (1000 * 1480)), (1480 / 5900). split; [ring|]. split; [field | lra]. Qed.
+
+(* non-vacuity of qratio_model_path(_complex): the double-skip path LTL, every incidence angle
+   pi/6, v_f = 1, v_l = 3/2, v_t = 1 is sub-critical at every wall *)
+Example model_path_premises_satisfiable :
+  subcritical 1 (3 / 2) 1 1 (PI / 6)
+  /\ refl_sub 1 (3 / 2) 1 ModeL [(ModeT, PI / 6); (ModeL, PI / 6)].
+Proof. exact subcritical_example. Qed.
